@@ -16,7 +16,7 @@ func runC03(c *Ctx) {
 		if !p.HasRem {
 			continue // ReadLeaseSet returns no remainder
 		}
-		forInputs(c, p, c.N(25, 800), 2, c.N(10, 400), func(input []byte, extra [][]byte, kind string) {
+		forInputsW(c, p, c.N(25, 300), 2, c.N(10, 150), func(input []byte, extra [][]byte, kind string, wlen int) {
 			res := runParser(c, p, input, extra)
 			if !res.OK {
 				return
@@ -29,6 +29,11 @@ func runC03(c *Ctx) {
 				return
 			}
 			consumed := input[:len(input)-len(res.Rem)]
+			// (1b) the structure's own declared extent, known from the independent encoder
+			if wlen >= 0 && !p.InexactGen {
+				c.Check("consumes_declared_extent", len(consumed) == wlen, p.Name, args, "",
+					fmt.Sprintf("structure is %d bytes, parser consumed %d", wlen, len(consumed)))
+			}
 			// (2) appended bytes: same value, same consumed length
 			for k := 0; k < 2; k++ {
 				tail := r.Bytes(1 + r.Intn(30))
